@@ -87,12 +87,18 @@ def run(repo, rep, tier):
         rep.ob("C16.R1", clears[0] if clears else f, f"{qual}: stored sizes are read before the header bucket is cleared", bool(clears) and not bad,
                "" if clears and not bad else f"{bad} run after the bucket is emptied: sizes not yet memoised fall back to the table default",
                key=f"C16.R1@{qual}:read-before-clear")
-        ok = any(U(kw.value) in ("row", "col") and kw.arg == "index" for kw in hdr[0].keywords)
-        rep.ob("C16.R1", hdr[0], f"{qual}: header index is the row/column itself", ok, "", key=f"C16.R1@{qual}:index")
+        # the record's index is the position the enclosing loop counts (read through the header-writer model)
+        from .. import headers as _hm
+        hm_ = _hm.model(repo, "row" if reader == "row_height" else "column")
+        idx_bad = [x for x in hm_["problems"] if "record's index" in x]
+        ok = not idx_bad
+        rep.ob("C16.R1", hdr[0], f"{qual}: header index is the row/column itself", ok, "; ".join(idx_bad), key=f"C16.R1@{qual}:index")
     # (b) border allowance added by the reader must be compensated by the writer
     for reader, qual, axis in (("row_height", "recalculate_row_headers", "row"), ("col_width", "recalculate_column_headers", "column")):
         rf = repo.func("model.py", f"_NumbersModel.{reader}")
-        adds = [n for n in body_walk(rf) if isinstance(n, ast.AugAssign) and isinstance(n.op, ast.Add) and "border" in U(n.value)]
+        # the terms the summarised reader adds to the rounded stored size (half the widest border on either side)
+        from .. import sizeread as _sr
+        adds = sorted(_sr.check(repo, reader)[2]["allowance"])
         wf = repo.func("model.py", f"_NumbersModel.{qual}")
         compensates = any(isinstance(n, (ast.BinOp, ast.AugAssign)) and isinstance(n.op, ast.Sub) and "border" in U(n) for n in ast.walk(wf)) or "stored_" in U(wf)
         ok = not adds or compensates
